@@ -67,6 +67,15 @@ def main(argv=None):
         for x in r.get("runs", []):
             for l in x["lines"][:3]:
                 print("    " + l)
-    with open(os.path.join(SEEDED, "RESULTS.json"), "w") as f:
-        json.dump(results, f, indent=1)
+    # a partial run updates the entries it re-ran and keeps the others
+    path = os.path.join(SEEDED, "RESULTS.json")
+    merged = {}
+    try:
+        with open(path) as f:
+            merged = {r["name"]: r for r in json.load(f)}
+    except (OSError, ValueError):
+        pass
+    merged.update({r["name"]: r for r in results})
+    with open(path, "w") as f:
+        json.dump([merged[k] for k in sorted(merged)], f, indent=1)
     return 0 if all(r.get("caught") for r in results) else 1
